@@ -81,10 +81,29 @@ def tol(scale):
     return 1e-9 * max(1.0, scale * scale)
 
 
+EPS = 2.0 ** -52
+
+
+def tols(xs):
+    """
+    (tolerance for mean(), tolerance for variance()) for a stream: 1e-9 relative to the *spread* of the data, plus the
+    first-order rounding bound of any algorithm that works with deviations from a running mean (the mean carries an error of
+    ~ scale*eps, a squared deviation therefore ~ 2*spread*scale*eps).  For the ordinary dyadic streams (|x| <= 24) this is the
+    former 1e-9*scale^2; for the offset streams (level ~ 2^27, spread of a few units) it stays near 1e-5, so that a variance
+    computed through raw sums of squares (error ~ scale^2*eps, i.e. of the order of the variance itself) is not excused.
+    """
+    scale = max([abs(x) for x in xs] + [1.0])
+    med = float(np.median(np.asarray(xs, dtype=float))) if len(xs) else 0.0
+    spread = max([abs(x - med) for x in xs] + [1.0])
+    t_mean = max(1e-9 * max(1.0, spread), 64 * EPS * scale)
+    t_var = max(1e-9 * max(1.0, spread * spread), 1024 * EPS * scale * (spread + 1.0))
+    return t_mean, t_var
+
+
 def check_trace(cfg, xs, tr):
     """the model-independent clauses; returns None or (class, step, detail)"""
     W = 0
-    scale = max([abs(x) for x in xs] + [1.0])
+    t_mean, t_var = tols(xs)
     for i, o in enumerate(tr):
         if "exc" in o:
             return ("adwin-update-raises", i, {"exception": o["exc"]})
@@ -113,9 +132,9 @@ def check_trace(cfg, xs, tr):
             return ("adwin-drift-state", i, {"drift": o["drift"]})
         win = np.asarray(xs[total - W: total], dtype=float)
         m, v = float(np.mean(win)), float(np.var(win))
-        if not core.close(o["mean"], m, abs_=tol(scale)):
+        if not core.close(o["mean"], m, rel=1e-12, abs_=t_mean):
             return ("adwin-mean-exactness", i, {"impl_mean": o["mean"], "window_mean": m, "W": W})
-        if not core.close(o["var"], v, abs_=tol(scale)):
+        if not core.close(o["var"], v, abs_=t_var):
             return ("adwin-variance-exactness", i, {"impl_variance": o["var"], "window_variance": v, "W": W})
     return None
 
@@ -151,7 +170,8 @@ def compare(ctx, kind, cfg, items, tr, mo, scale, payload):
                      what="drift_state / retraining_recs / total_samples differ from the cut rule (Lean model, Props/C03 hit_iff, step_drift_iff)",
                      detector=kind, config=cfg, step=i, impl=o, model=m, **payload)
             return drifts, multi
-        if not (core.close(o["mean"], m["mean"], abs_=tol(scale)) and core.close(o["var"], m["var"], abs_=tol(scale))):
+        t_mean, t_var = scale if isinstance(scale, tuple) else (tol(scale), tol(scale))
+        if not (core.close(o["mean"], m["mean"], rel=1e-12, abs_=t_mean) and core.close(o["var"], m["var"], abs_=t_var)):
             ctx.mismatch(component=kind, config=cfg, case=payload, step=i, impl=o, model=m)
             return drifts, multi
         if m["drift"] == "D":
@@ -170,8 +190,10 @@ def dy(rng, lo, hi):
     return float(rng.integers(int(lo * 8), int(hi * 8) + 1)) / 8.0
 
 
-def gen_stream(rng, n):
-    """piecewise stationary dyadic stream with level shifts"""
+def gen_stream(rng, n, offset=0.0):
+    """piecewise stationary dyadic stream with level shifts (optionally riding on a large exactly representable offset)"""
+    if offset:
+        return [offset + x for x in gen_stream(rng, n)]
     xs = []
     level = dy(rng, -4, 4)
     while len(xs) < n:
@@ -235,9 +257,13 @@ def run(ctx):
         n = int(r.integers(20, max_len + 1)) if k % 5 else max_len
         if ctx.quick and k % 3:
             n = min(n, 150)
-        xs = gen_stream(r, n)
+        # every 6th stream rides on a level of +-2^27 (exactly representable with the 1/8 grid): the statistics must be those of
+        # the window whatever the level — a variance obtained by cancelling large raw sums of squares is then off by O(1)
+        off = 0.0 if k % 6 != 4 else float(r.choice([-1.0, 1.0])) * 2.0 ** 27
+        xs = gen_stream(r, n, off)
         cases.append(("adwin", cfg, xs, {"stream": xs}))
         ctx.count("random")
+        ctx.count("random-offset-2^27", int(off != 0))
     # (c) ADWINAccuracy with non-default parameters, several label encodings
     n_acc = 120 if ctx.quick else 300
     acc_cases = []
@@ -293,7 +319,7 @@ def run(ctx):
         tr = impl[idx]
         s, e = spans[idx]
         mo = [parse_model(l) for l in out[s:e]]
-        scale = max([abs(x) for x in xs] + [1.0])
+        scale = tols(xs)
         bad = check_trace(cfg, xs, tr)
         if bad is not None:
             cls, step, detail = bad
